@@ -929,3 +929,81 @@ def t_goto_labels(facts, res, tier):
         res.fail(key, facts.where(label_fn, label_node),
                  "user labels are written as `%s` and the generator's own labels as %s ...: a user label spelled like one of them (`for1:`) is defined twice or captures the generator's branches" % (
                      user_tmpl, ", ".join("`%s`" % c.replace("{}", "<n>") for c in clash[:4])))
+
+
+# ----------------------------------------------------------------------------- self-check of the path walker
+
+_visited_nodes = set()
+
+
+def _install_visit_probe():
+    import walker
+    if getattr(walker.Walker, "_probe_installed", False):
+        return
+    orig_eval = walker.Walker.eval
+
+    def ev(self, n, state):
+        _visited_nodes.add(id(n))
+        return orig_eval(self, n, state)
+    walker.Walker.eval = ev
+    walker.Walker._probe_installed = True
+
+
+_install_visit_probe()
+
+
+# branches the refinement proves dead (confirmed by reading); keyed by function and the text of the arm / condition
+DEAD_BRANCHES = {
+    "generate_arithm|arm|ExprType::Immediate(l)": "inside the arm where `right` is not Immediate; right2 is right with A replaced by Tmp",
+    "generate_arithm|arm|ExprType::A(s)": "right2 never is A: an accumulator right operand was stored to cctmp just above",
+    "generate_plusplus|then|((v.var_type==VariableType::Short)||((v.var_type==": "the enclosing arm already fixed var_type to another variant",
+    "generate_plusplus|then|((v.var_type==VariableType::CharPtrPtr)||(v.var_ty": "the enclosing arm already fixed var_type to another variant",
+    "generate_condition_ex|arm|ExprType::Tmp(_)": "under `flags_ok(&self.flags, left)`, which is never true for a cctmp operand",
+    "generate_condition_ex|then|letExprType::Immediate(v)=left": "under `flags_ok(&self.flags, left)`, which is never true for a constant",
+    "generate_condition_ex|then|(((operator==Operation::Neq)&&(v!=0))||((operator=": "inside the dead branch above",
+    "generate_condition_ex|arm|ExprType::Tmp(s)": "under `flags_ok(&self.flags, left)`, which is never true for a cctmp operand",
+    "generate_condition_ex|arm|_": "under `flags_ok(..)`: the remaining operand kinds were all matched by the arms before",
+    "generate_condition|arm|_": "the operator was tested to be one of the six comparisons just above",
+    "generate_condition|then|letExprType::Tmp(_)=expr": "under `flags_ok(&self.flags, &expr)`, which is never true for a cctmp operand",
+}
+
+
+@rule("T-WALKER-COVERAGE", floor=500,
+      text="self-check of the analysis: the path walker enters every branch of every generator function - `if` arms, `else` arms and `match` "
+           "arms - except those tabled as dead (the refinement proves them infeasible; each confirmed by reading).  Any other branch that is "
+           "never entered means paths are being lost (as happened once with a mis-resolved `None` pattern), the path rules would pass "
+           "vacuously there, and the check fails")
+def t_walker_coverage(facts, res, tier):
+    import genmodel
+    tot = 0
+    miss = []
+    dead = []
+    for fn in genmodel.gen_fns(facts):
+        if fn["name"] == "new":
+            continue
+        genmodel._cache.pop(("paths", id(facts), fn["name"], fn["qual"]), None)
+        try:
+            genmodel.fn_paths(facts, fn)
+        except Exception as e:
+            res.fail("T-WALKER-COVERAGE:%s:INTERNAL" % fn["name"], facts.where(fn), "path enumeration failed: %s" % e)
+            continue
+        for n in walk(fn["body"]):
+            items = []
+            if n.get("k") == "match":
+                items = [("arm", pat_text(a["pat"])[:50], a["body"]) for a in n["arms"]]
+            elif n.get("k") == "if":
+                items = [(part, re.sub(r"\s+", "", expr_text(n["cond"]))[:50], n[part]) for part in ("then", "else") if n.get(part) is not None]
+            for kind, text, body in items:
+                tot += 1
+                res.inst("T-WALKER-COVERAGE:%s:%d" % (fn["name"], tot), True)
+                if id(body) not in _visited_nodes:
+                    k2 = "%s|%s|%s" % (fn["name"], kind, text)
+                    if k2 in DEAD_BRANCHES:
+                        dead.append(k2)
+                    else:
+                        miss.append((k2, facts.where(fn, n)))
+    res.note("walker coverage: %d of %d branches entered; %d tabled as dead: %s" % (tot - len(miss) - len(dead), tot, len(dead), "; ".join(sorted(set(dead)))))
+    for k2, where in miss:
+        res.fail("T-WALKER-COVERAGE:not-entered:%s" % k2, where,
+                 "the path walker never enters this branch and it is not tabled as dead: the path rules do not see the code in it (either the "
+                 "walker loses paths here, or the branch is dead code that has to be confirmed and tabled)")
